@@ -11,6 +11,7 @@
 (*   order      : run_order (insights/contrib/toposort.py)                 *)
 (*   points     : get_registry_points                                      *)
 (*   helpers    : split_requirements / get_missing_requirements / first_of *)
+(*   specs      : get_dependency_specs                                     *)
 (*   names      : get_name / get_component / get_component_by_name         *)
 (*                                                                         *)
 (* Two layers.  The REFERENCE layer gives every function its meaning as an *)
@@ -44,7 +45,7 @@ CONSTANTS
     LabelSet,   \* how a component names an earlier one: "none","req","g1","g2","opt","req+opt","g1+g2","g1+opt"
     PrioSet,    \* prio of a registry point, 0..2 (the driver declares prio - 1; 1 = the default, "no priority")
     MaxAdds,    \* add_dependency calls after the declarations
-    AskSet,     \* questions explored: "basic","sub","topo","walk","help"
+    AskSet,     \* questions explored: "basic","sub","topo","walk","help","specs"
     KeyMode     \* "any": every non-empty key set; "closed": key sets closed under dependencies; "all": all components
 
 VARIABLES
@@ -196,6 +197,56 @@ Satisfied(d, pres) == (\A r \in Rng(ReqSeq(d)) : r \in pres) /\ (\A g \in Rng(Gr
 FirstOf(s, pres) == IF \E i \in DOMAIN s : s[i] \in pres THEN s[Min({i \in DOMAIN s : s[i] \in pres})] ELSE 0
 
 -----------------------------------------------------------------------------
+(* REFERENCE: get_dependency_specs - "the requires and at_least_one specs   *)
+(* of the component; the optional specs are not considered":                *)
+(*   [req_1, req_2, (alo_11, alo_12), (alo_21, [req_alo22, (alo_23, alo_24)])] *)
+(* a list = all of its items are required, a tuple = at least one of its    *)
+(* items is required, a name = that spec.  A spec is a registry point       *)
+(* (its name starts with insights.specs); any other component stands for its *)
+(* own requirements.  The meaning of such an answer is a monotone condition  *)
+(* on the set of available specs; ANY answer with that meaning is accepted. *)
+AddedSeq(a, k, c) == LET s == SelectSeq(SubSeq(a, 1, k), LAMBDA e : e[1] = c) IN [i \in DOMAIN s |-> s[i][2]]
+EffDecl(p, a, k, c) ==                      \* add_dependency: "d joins the first at-least-one group"
+    LET d == p[c].decl  x == AddedSeq(a, k, c) IN
+    IF x = <<>> \/ ~HasGroup(p, c) THEN d
+    ELSE LET i0 == Min({i \in DOMAIN d : d[i].t = "grp"}) IN [d EXCEPT ![i0].ds = @ \o x]
+EffProg(p, a, k) == [c \in DOMAIN p |-> [p[c] EXCEPT !.decl = EffDecl(p, a, k, c)]]
+
+RECURSIVE NeedsMet(_, _, _)
+NeedsMet(ep, c, S) ==                       \* are the requirements of c met when exactly the specs S are available?
+    LET d == ep[c].decl
+        Leaf(x) == IF IsPoint(ep, x) THEN x \in S ELSE NeedsMet(ep, x, S) IN
+    /\ \A r \in Rng(ReqSeq(d)) : Leaf(r)
+    /\ \A g \in Rng(GrpSeq(d)) : \E m \in Rng(g) : Leaf(m)
+
+(* an answer as a formula: one record shape for names, lists and tuples *)
+Fm(t, n, xs) == [t |-> t, n |-> n, xs |-> xs]
+RECURSIVE EvalF(_, _)
+EvalF(f, S) == CASE f.t = "var" -> f.n \in S
+                 [] f.t = "and" -> \A i \in DOMAIN f.xs : EvalF(f.xs[i], S)
+                 [] f.t = "or"  -> \E i \in DOMAIN f.xs : EvalF(f.xs[i], S)
+                 [] OTHER       -> FALSE
+EvalList(fs, S) == \A i \in DOMAIN fs : EvalF(fs[i], S)
+RECURSIVE ConcatAll(_)
+ConcatAll(ss) == IF ss = <<>> THEN <<>> ELSE Head(ss) \o ConcatAll(Tail(ss))
+(* the answer written the way the docstring's example writes it *)
+RECURSIVE SpecForm(_, _)
+SpecForm(ep, c) ==
+    LET d == ep[c].decl  reqs == ReqSeq(d)  grps == GrpSeq(d)
+        Flat(x)   == IF IsPoint(ep, x) THEN <<Fm("var", x, <<>>)>> ELSE SpecForm(ep, x)
+        Member(x) == IF IsPoint(ep, x) THEN Fm("var", x, <<>>) ELSE Fm("and", 0, SpecForm(ep, x)) IN
+    ConcatAll([i \in DOMAIN reqs |-> Flat(reqs[i])])
+    \o [i \in DOMAIN grps |-> Fm("or", 0, [j \in DOMAIN grps[i] |-> Member(grps[i][j])])]
+(* what a component's requirements look at: through requirements and groups, registry points are leaves *)
+NeedEdges(ep) == [c \in DOMAIN ep |-> IF IsPoint(ep, c) THEN {}
+                                     ELSE Rng(ReqSeq(ep[c].decl)) \cup UNION {Rng(g) : g \in Rng(GrpSeq(ep[c].decl))}]
+(* the question has an answer the docstring defines: asked of a component that is no spec itself, reaches no     *)
+(* cycle, and does not look at the implementation of a spec directly (whether that counts as "a spec" is not said) *)
+SpecsAskable(ep, a, k, c) ==
+    /\ ~IsPoint(ep, c) /\ ~ReachesCycle(NeedEdges(ep), c)
+    /\ \A x \in {c} \cup TC(NeedEdges(ep), c) : ~(IsDS(ep, x) /\ ImplOfSome(ep, a, k, x))
+
+-----------------------------------------------------------------------------
 (* MECHANISM: declaration                                                   *)
 Low(c) == 1..(c - 1)
 Lab(lab, S) == Asc({j \in DOMAIN lab : lab[j] \in S})
@@ -247,11 +298,14 @@ EndDefine ==
 
 (* dr.add_dependency(c, d): d joins the first at-least-one group of c; both  *)
 (* tables are updated.  A registry point gets its implementations this way   *)
-(* (a datasource implements at most one point).  A component without an      *)
-(* at-least-one group has nothing to add to: outside the model.              *)
+(* (a datasource implements at most one point, and not one it depends on).   *)
+(* A component without an at-least-one group has nothing to add to: outside  *)
+(* the model.                                                                *)
 CanAdd(c, d) ==
     /\ c # d /\ HasGroup(prog, c)
-    /\ IsPoint(prog, c) => (IsDS(prog, d) /\ ~ImplOfSome(prog, adds, Len(adds), d))
+    /\ IsPoint(prog, c) => /\ IsDS(prog, d) /\ ~ImplOfSome(prog, adds, Len(adds), d)
+                           \* the registration walks the implementation's dependencies: not on a cycle
+                           /\ ~ReachesCycle([deps EXCEPT ![c] = @ \cup {d}], d)
 AddDepWith(c, d) ==
     /\ adds' = Append(adds, <<c, d>>)
     /\ deps' = [deps EXCEPT ![c] = @ \cup {d}]
@@ -297,6 +351,8 @@ Ask ==
        \/ "topo" \in AskSet /\ \E K \in KeySets : AskWith("topo", K, 0, {})
        \/ "walk" \in AskSet /\ \E r \in Ids : AskWith("walk", {}, r, {})
        \/ "help" \in AskSet /\ \E r \in Ids, pres \in SUBSET Ids : AskWith("help", {}, r, pres)
+       \/ "specs" \in AskSet /\ \E r \in Ids : SpecsAskable(EffProg(prog, adds, Len(adds)), adds, Len(adds), r)
+                                               /\ AskWith("specs", {}, r, {})
 
 (* grow: "keys are sorted as per prio"; take the first remaining key, spread  *)
 (* over dependencies and dependents that are in the graph, yield, go on       *)
@@ -424,6 +480,13 @@ HelperLaws ==
     /\ (MissAll(d, q.pres) = <<>> /\ MissAny(d, q.pres) = <<>>) <=> Satisfied(d, q.pres)
     /\ FirstOf(FlatSeq(d), q.pres) # 0 <=> Rng(FlatSeq(d)) \cap q.pres # {}
     /\ Len(ReqSeq(d)) + Len(GrpSeq(d)) = Cardinality({i \in DOMAIN d : d[i].t # "opt"})
+
+SpecLaws ==
+    (phase = "done" /\ q.t = "specs") =>
+    LET ep == EffProg(prog, adds, Len(adds))  pts == {x \in Ids : IsPoint(prog, x)} IN
+    /\ \A S \in SUBSET pts : EvalList(SpecForm(ep, q.root), S) = NeedsMet(ep, q.root, S)   \* the documented form says it
+    /\ \A S \in SUBSET pts : \A T \in SUBSET pts : (S \subseteq T /\ NeedsMet(ep, q.root, S)) => NeedsMet(ep, q.root, T)
+    /\ \A S \in SUBSET pts : NeedsMet(ep, q.root, S) = NeedsMet(ep, q.root, S \cap TC(NeedEdges(ep), q.root))
 
 TypeOK ==
     /\ phase \in {"define", "adds", "ask", "grow", "peel", "bfs", "done"}
